@@ -24,9 +24,10 @@ PARSER = "pyimpspec.circuit.parser"
 
 def compile_setters(model) -> Dict[str, Setter]:
     out = {}
+    methods = {n: f.node for n, f in model.classes[f"{BASE}:Element"].methods.items()}
     for m in NUMERIC_SETTERS:
         fi = model.fi(BASE, f"Element.{m}")
-        out[m] = Setter(fi.node, f"Element.{m}")
+        out[m] = Setter(fi.node, f"Element.{m}", methods)
     # no subclass may override them unnoticed
     elem_q = f"{BASE}:Element"
     for cq in model.subclasses(elem_q):
@@ -96,7 +97,7 @@ def sequence_of(fn: ast.FunctionDef, who: str, receivers=("self",)) -> List[Step
             for c in calls:
                 m = c.func.attr
                 if m in NUMERIC_SETTERS:
-                    steps.append(Step(m, classify_arg(c, who), c))
+                    steps.append(Step(m, classify_arg(c, who, fn), c))
                 elif m in ("set_fixed", "set_label", "set_subcircuits"):
                     steps.append(Step(m, "", c))
     return steps
@@ -319,6 +320,9 @@ def check(ctx: Ctx) -> None:
         else:
             ctx.ok()
 
+    # R14.2 key selection: every default getter used by reset_parameters addresses exactly the requested keys
+    _reset_key_selection(ctx, model)
+
     # R14.3 copies -------------------------------------------------------------------
     ws_copy = worlds(["v", "l", "u", "v0", "l0", "u0"], SRC_OK + DEF_OK, with_inf=True)
     for qual in ("Element.__copy__", "Container.__copy__", "Container.__deepcopy__"):
@@ -539,3 +543,94 @@ def _aliasing(ctx: Ctx, model) -> None:
                                   f"{mname} writes the class-level dictionary {base.attr}")
     if n_sites < 20:
         raise AnalysisError(f"R14.4: only {n_sites} dictionary sites found (floor 20)")
+
+
+def _reset_key_selection(ctx: Ctx, model) -> None:
+    """Abstract interpretation over the four worlds (positional keys empty/non-empty) × (keyword keys
+    empty/non-empty): the set of keys each default getter is asked for must be args ∪ kwargs.keys()."""
+    fi = model.fi(BASE, "Element.reset_parameters")
+    a = fi.node.args
+    if a.vararg is None or a.kwarg is None:
+        raise AnalysisError("Element.reset_parameters: expected (*args, **kwargs)")
+    va, kw = a.vararg.arg, a.kwarg.arg
+    binds: Dict[str, ast.AST] = {}
+    for n in walk_ordered(fi.node):
+        if isinstance(n, (ast.Assign, ast.AnnAssign)) and n.value is not None:
+            t = n.targets[0] if isinstance(n, ast.Assign) else n.target
+            if isinstance(t, ast.Name):
+                binds[t.id] = n.value
+
+    def ev(e: ast.AST, A: frozenset, K: frozenset, depth: int = 0):
+        if depth > 6:
+            raise AnalysisError("reset_parameters: key expression too deep")
+        if isinstance(e, ast.Name):
+            if e.id == va:
+                return A
+            if e.id == kw:
+                return K
+            if e.id in binds:
+                return ev(binds[e.id], A, K, depth + 1)
+            raise AnalysisError(f"reset_parameters: name {e.id} in a key expression is not understood")
+        if isinstance(e, ast.Call):
+            f = e.func
+            if isinstance(f, ast.Attribute) and f.attr == "keys" and not e.args:
+                return ev(f.value, A, K, depth + 1)
+            if isinstance(f, ast.Name) and f.id in ("tuple", "list", "set", "sorted", "frozenset") and len(e.args) == 1:
+                return ev(e.args[0], A, K, depth + 1)
+            if isinstance(f, ast.Attribute) and isinstance(f.value, ast.Name) and f.value.id == "self" and (f.attr.startswith("get_default_") or f.attr == "are_fixed_by_default"):
+                return requested(e, A, K, depth + 1)  # a dict of defaults: its keys are the requested keys
+            raise AnalysisError(f"reset_parameters: call {norm(e)[:60]} in a key expression is not understood")
+        if isinstance(e, ast.BoolOp) and isinstance(e.op, ast.Or):
+            for v in e.values:
+                r = ev(v, A, K, depth + 1)
+                if r:
+                    return r
+            return frozenset()
+        if isinstance(e, ast.BinOp) and isinstance(e.op, (ast.Add, ast.BitOr)):
+            return ev(e.left, A, K, depth + 1) | ev(e.right, A, K, depth + 1)
+        if isinstance(e, (ast.Tuple, ast.List, ast.Set)):
+            out = frozenset()
+            for x in e.elts:
+                out |= ev(x.value, A, K, depth + 1) if isinstance(x, ast.Starred) else frozenset({norm(x)})
+            return out
+        if isinstance(e, ast.Dict):
+            out = frozenset()
+            for k_, v_ in zip(e.keys, e.values):
+                out |= ev(v_, A, K, depth + 1) if k_ is None else frozenset({norm(k_)})
+            return out
+        if isinstance(e, (ast.DictComp, ast.ListComp, ast.SetComp, ast.GeneratorExp)) and len(e.generators) == 1 and not e.generators[0].ifs:
+            return ev(e.generators[0].iter, A, K, depth + 1)
+        raise AnalysisError(f"reset_parameters: key expression {norm(e)[:60]} is not understood")
+
+    ALL = frozenset({"<all keys>"})
+
+    def requested(call: ast.Call, A, K, depth: int = 0):
+        pos = frozenset()
+        kws = frozenset()
+        for x in call.args:
+            pos |= ev(x.value, A, K, depth) if isinstance(x, ast.Starred) else frozenset({norm(x)})
+        for k_ in call.keywords:
+            kws |= ev(k_.value, A, K, depth) if k_.arg is None else frozenset({k_.arg})
+        r = pos | kws
+        return r if r else ALL
+
+    getters = [c for c in calls_in(fi.node) if isinstance(c.func, ast.Attribute) and dotted(c.func.value) == "self"
+               and (c.func.attr.startswith("get_default_") or c.func.attr == "are_fixed_by_default")]
+    if len(getters) < 4:
+        raise AnalysisError(f"Element.reset_parameters: only {len(getters)} default getters found (floor 4)")
+    for c in getters:
+        ctx.instance("R14.2", f"reset_parameters: {norm(c)[:60]} addresses args ∪ kwargs")
+        bad = None
+        for A in (frozenset(), frozenset({"a"})):
+            for K in (frozenset(), frozenset({"k"})):
+                want = (A | K) or ALL
+                got = requested(c, A, K)
+                if got != want:
+                    bad = bad or (A, K, got, want)
+        if bad:
+            A, K, got, want = bad
+            ctx.violation("R14.2", f"Element.reset_parameters:key-selection:{c.func.attr}", BASE, c,
+                          f"with positional keys {sorted(A)} and keyword keys {sorted(K)}, {c.func.attr} is asked for {sorted(got)} instead of {sorted(want)}: "
+                          f"some requested parameters are not reset")
+        else:
+            ctx.ok()
